@@ -34,7 +34,7 @@ RULE = ("one configuration = (corpus font or TTC member or derived font [re-flav
         "(compiled for all/subset, pass-through for none/subset) and every oracle stage (a)-(c) reached a verdict; "
         "distinct by that tuple")
 ASSUMPTIONS = [
-    "content equality (a) is equality of the library's own XML dump applied symmetrically to original and saved table bytes (faithfulness of the dump is C03's property), cross-checked by a HarfBuzz before/after differential for outlines, advances and cmap",
+    "content equality (a) is equality of the library's own XML dump applied symmetrically to original and saved table bytes (faithfulness of the dump is C03's property), cross-checked by spec-written readers for name / hmtx / vmtx and by a HarfBuzz before/after differential for outlines, advances and cmap",
     "derived fields the library documents as recomputed on compile are masked in (a) only: head.checkSumAdjustment, OS/2 usFirstCharIndex/usLastCharIndex, post extraNames that are standard Macintosh names; with recalcBBoxes=True also head/glyph bboxes, hhea/vhea extents, maxp maxima, CFF FontBBox; their correctness is C04's job",
     "raw table bytes of sfnt/TTC files come from a spec-written directory parser (vmon/oracle/c01_sfntdir.py); WOFF/WOFF2 containers are read through the library's reader (the container is C04's property)",
     "WOFF2 output: glyf/loca are normalised by the WOFF2 transform, so for that flavour they are judged by content (a), not by byte identity (c)",
@@ -42,7 +42,7 @@ ASSUMPTIONS = [
 ]
 REQUIRED_MONITORS = ["TTFont.getTableData", "TTFont._readTable", "SFNTWriter.__setitem__"]
 REQUIRED_SITES = ["getTableData:compiled", "getTableData:passthrough"]
-CASE_TIMEOUT = 300
+CASE_TIMEOUT = 900
 MANIFEST = {
     "text": "Exploration over the whole vendored corpus: every binary font, TTC member and compilable TTX font (438) is loaded under lazy in {None, True, False} x {all tables touched, random subset, none} x recalcBBoxes, saved, and the saved file is judged table by table: content equality of original vs recompiled bytes (canonical dump applied symmetrically, reader-independent; HarfBuzz before/after differential), byte equality of a second load-save generation, and byte identity of every table that the getTableData monitor saw take the pass-through path. Thorough adds every container flavour, injected unknown tags, garbage-replaced tables under ignoreDecompileErrors, and table transplants between fonts. The suite always puts an XML hop in between and never checks second-generation stability.",
     "note": "Trusted base: vmon/oracle/c01_sfntdir.py (struct-level sfnt/TTC directory parser), HarfBuzz 12.1 as before/after differential, Python. The library's XML dump is used only symmetrically on two byte strings. Derived-field mask is the explicit list in c01.py (_MASKS).",
@@ -95,7 +95,7 @@ def setup():
             want = st["orig"].get(tag)
             st["pt_checked"] += 1
             if want is None or bytes(res) != want:
-                hooks.report({"kind": "passthrough", "table": _gen(tag), "where": "getTableData"},
+                hooks.report({"kind": "passthrough", "table": tag, "where": "getTableData"},
                              "%s: table %r was never loaded but getTableData returned bytes that differ from the source file's"
                              % (st["label"], tag),
                              {"want_sha": _sha(want or b""), "got_sha": _sha(bytes(res)), "want_len": len(want or b""),
@@ -118,7 +118,7 @@ def setup():
         st = _last["st"]
         st["written"][tag] = bytes(data)
         if bytes(data) != bytes(_last["data"]):
-            hooks.report({"kind": "writer-input", "table": _gen(tag)},
+            hooks.report({"kind": "writer-input", "table": tag},
                          "%s: bytes handed to the container writer for %r differ from getTableData's" % (st["label"], tag), None)
         _last.clear()
 
@@ -129,11 +129,6 @@ def setup():
     probes.add_site("getTableData:compiled", TF.TTFont.getTableData, r"\.compile\(self\)")
     probes.add_site("getTableData:passthrough", TF.TTFont.getTableData, r"return self\.reader\[tag\]")
     probes.add_site("_readTable:DefaultTable-fallback", TF.TTFont._readTable, r"table = DefaultTable\(tag\)")
-
-
-def _gen(tag):
-    """tags in mechanisms: real tags as they are; injected ones are fixed strings anyway."""
-    return tag
 
 
 def _first_diff(a, b):
@@ -633,6 +628,9 @@ def _roundtrip(ctx, env, lazy, touch, rb, rnd):
                 ctx.note("bytes-differ-content-equal:" + tag)
     else:
         ctx.judged(len(orig))
+    # struct-level readers (independent of the library) for name / hmtx / vmtx
+    if differing and _struct_diff(ctx, orig, new, label):
+        bad = True
     # HarfBuzz before/after differential
     if touch == "all" and kind1 == "sfnt" and env["kind"] in ("sfnt", "ttc"):
         if _hb_diff(ctx, env, F1, label):
@@ -667,6 +665,60 @@ def _roundtrip(ctx, env, lazy, touch, rb, rnd):
     return {"lazy": repr(lazy), "touch": touch, "recalcBBoxes": rb, "compiled": ncomp, "passthrough": npass,
             "loaded_by_library_itself": loaded_by_lib[:8], "tables_bytes_differ": sorted(differing)[:12],
             "second_generation_identical": True, "file_sha": _sha(F1)}
+
+
+def _metrics(tables, mtx, hea):
+    """Expanded [(advance, side bearing)] per glyph from hmtx/vmtx + hhea/vhea + maxp (spec-written)."""
+    import struct
+
+    n = struct.unpack(">H", tables["maxp"][4:6])[0]
+    k = struct.unpack(">H", tables[hea][34:36])[0]
+    d = tables[mtx]
+    if k > n or len(d) < 4 * k + 2 * (n - k) or k == 0:
+        return None
+    long = [struct.unpack(">Hh", d[4 * i:4 * i + 4]) for i in range(k)]
+    rest = struct.unpack(">%dh" % (n - k), d[4 * k:4 * k + 2 * (n - k)])
+    return long + [(long[-1][0], sb) for sb in rest]
+
+
+def _struct_diff(ctx, orig, new, label):
+    """Content equality by spec-written readers where the format is simple enough; a table the
+    reader cannot take apart (malformed in the source) is not judged here."""
+    from vmon.oracle import c03_strings as cs
+
+    bad = False
+    if "name" in orig and "name" in new and orig["name"] != new["name"]:
+        try:
+            fa, ra, la = cs.parse_name(orig["name"])
+            fb, rb_, lb = cs.parse_name(new["name"])
+        except Exception:
+            ra = None
+        if ra is not None:
+            ctx.judged()
+            ctx.note("struct-level:name")
+            if sorted(ra) != sorted(rb_) or la != lb:
+                bad = True
+                ctx.violation({"kind": "struct-content", "table": "name"},
+                              "%s: spec-written reader finds different name records after load+save" % label,
+                              {"only_original": [repr(r)[:120] for r in sorted(set(ra) - set(rb_))[:4]],
+                               "only_recompiled": [repr(r)[:120] for r in sorted(set(rb_) - set(ra))[:4]]})
+    for mtx, hea in (("hmtx", "hhea"), ("vmtx", "vhea")):
+        if all(t in orig and t in new for t in (mtx, hea, "maxp")) and (orig[mtx] != new[mtx] or orig[hea] != new[hea]):
+            try:
+                a, b = _metrics(orig, mtx, hea), _metrics(new, mtx, hea)
+            except Exception:
+                a = None
+            if a is None or b is None:
+                continue
+            ctx.judged()
+            ctx.note("struct-level:" + mtx)
+            if a != b:
+                bad = True
+                gid = next((i for i, (x, y) in enumerate(zip(a, b)) if x != y), min(len(a), len(b)))
+                ctx.violation({"kind": "struct-content", "table": mtx},
+                              "%s: spec-written reader finds different %s metrics after load+save" % (label, mtx),
+                              {"glyph": gid, "original": a[gid:gid + 1], "recompiled": b[gid:gid + 1]})
+    return bad
 
 
 def _cmap4_unterminated(data):
